@@ -599,7 +599,7 @@ def evaluate_z3_str_to_code(
 
     return Some(
         construct_result(
-            lambda args: ord(args[0]),
+            lambda args: ord(args[0]) if len(args[0]) == 1 else -1,
             children_results,
         )
     )
